@@ -224,6 +224,10 @@ pub fn run(seed: u64, ntraces: usize) {
                     json!({"token_id": hx(&tid), "dchain": hx(b"ethereum"), "daddr": hx(b"0xdead"), "metadata": "", "gas": "0"}));
                 if d == 1 { script.extend([190u64, 191, 192, 190]); }
                 else if d == 6 {
+                    // a metadata registration is in flight when the owner pauses: its (successful) lookup callback still forwards the gas
+                    let u1 = g.users[1].clone();
+                    g.its_tx("registerMetadata", &u1, "registerTokenMetadata", vec![tok.clone()], 555, &[], json!({"token": hx(&tok)}));
+                    script.push(22);
                     let ow = g.owner.clone();
                     let (okp, _, _) = g.its_tx("pause", &ow, "pause", vec![], 0, &[], json!({"paused": true})); if okp { g.paused = true; }
                     script.extend([1602u64, 1702, 1802, 1600, 10, 1602]);
